@@ -43,6 +43,8 @@ class Ctx:
         os.makedirs(self.replay_dir, exist_ok=True)
         self.violations = []       # (signature, replay path, text)
         self.violation_counts = {}
+        self.beyonds = []
+        self.beyond_counts = {}
         self.known_hits = {}       # finding id -> count
         self.cov = {
             'states': 0, 'transitions': 0, 'traces_validated_against_impl': 0,
@@ -124,7 +126,27 @@ class Ctx:
         print('[%s] violation: %s' % (self.pid, text[:600]), flush=True)
         return True
 
+    def beyond(self, spec, sig, detail, text):
+        """A contradiction between the code and a specification module that models behaviour OUTSIDE the statement
+        of this property (spec growth hosted by this check).  It is reported (BEYOND-PROPERTY line, replay file,
+        evidence note) but is not a violation of the property: the exit status stays what the property's own
+        stages decide.  VERIF_STRICT_GROWTH=1 turns such mismatches into exit status 3."""
+        key = json.dumps(dict(sig, spec=spec), sort_keys=True, default=jdefault)
+        self.beyond_counts[key] = self.beyond_counts.get(key, 0) + 1
+        if self.beyond_counts[key] > 1 or len(self.beyonds) >= 20:
+            return
+        h = hashlib.sha256((key + text).encode()).hexdigest()[:12]
+        path = os.path.join(self.replay_dir, 'beyond_' + h + '.json')
+        with open(path, 'w') as fh:
+            json.dump({'host_property': self.pid, 'spec_module': spec, 'seed': self.seed, 'tier': self.tier,
+                       'signature': sig, 'what': text, 'detail': detail}, fh, indent=1, default=jdefault)
+        self.beyonds.append((spec, path, text))
+        print('[%s] beyond-property mismatch (%s): %s' % (self.pid, spec, text[:600]), flush=True)
+
     def finish(self):
+        for spec, path, text in self.beyonds:
+            self.notes.append('beyond-property mismatch, spec %s (not a violation of %s): %s [%s]' % (
+                spec, self.pid, text[:300], path))
         cov = self.cov
         if not cov['samples']:
             cov['samples'] = ['(no case executed)']
@@ -138,19 +160,25 @@ class Ctx:
             'known_findings_observed': {k: v[0] for k, v in self.known_hits.items()},
             'notes': self.notes,
         }
-        os.makedirs(os.path.join(ROOT, 'evidence'), exist_ok=True)
-        with open(os.path.join(ROOT, 'evidence', self.pid + '.json'), 'w') as fh:
+        # growth checks (G..) are not properties: their evidence lives apart from evidence/<property>.json
+        evdir = os.path.join(ROOT, 'evidence' if self.pid.startswith('C') else 'growth')
+        os.makedirs(evdir, exist_ok=True)
+        with open(os.path.join(evdir, self.pid + '.json'), 'w') as fh:
             json.dump(ev, fh, indent=1, default=jdefault)
         for fid, (n, f) in sorted(self.known_hits.items()):
             print('KNOWN-FINDING: property=%s %s %s (re-observed on %d case(s))' % (
                 self.pid, fid, f['what'], n))
+        for spec, path, text in self.beyonds:
+            print('BEYOND-PROPERTY: host=%s spec=%s replay=%s' % (self.pid, spec, path))
         shown = [v for v in self.violations if v[1]]
         for key, path, text in shown:
             print('VIOLATION property=%s replay=%s' % (self.pid, path))
         print('[%s] %s tier=%s seed=%d wall=%.1fs states=%d evaluations=%d traces=%d' % (
-            self.pid, 'FAIL' if shown else 'PASS', self.tier, self.seed,
+            self.pid, 'FAIL' if shown else ('PASS' if not self.beyonds else 'PASS (%d beyond-property mismatch(es))' % len(self.beyonds)), self.tier, self.seed,
             ev['wall_s'], cov['states'], cov['evaluations'],
             cov['traces_validated_against_impl']), flush=True)
+        if not shown and self.beyonds and (os.environ.get('VERIF_STRICT_GROWTH') or not self.pid.startswith('C')):
+            return 3      # growth checks (G..) have nothing else to decide: a mismatch is their failure
         return 1 if shown else 0
 
 
